@@ -7,7 +7,8 @@ From CCTZ Require Import CalProofs CivilNorm CivilDiff ZoneSelect ZoneZProofs Fi
 Require Import Lia ZifyBool.
 Local Open Scope Z_scope.
 
-Ltac Zify.zify_post_hook ::= idtac.
+(* no division in this file: keep lia's preprocessing minimal (local to this file) *)
+Local Ltac Zify.zify_post_hook ::= idtac.
 
 Local Notation cos := civil_of_seconds.
 
@@ -390,13 +391,14 @@ Proof.
     assert (upper_idx (absl z) t = O) as E0.
     { unfold absl. rewrite Hfr. cbn [map upper_idx absf zt_time].
       destruct (Z.ltb_spec t (tr_time f)); [reflexivity|lia]. }
-    rewrite E0 in ZB. inversion ZB as [[Eo Ei]]. rewrite <- Ei.
+    rewrite E0 in ZB. cbv beta iota in ZB. apply pair_equal_spec in ZB.
+    destruct ZB as [Eo Ei]. rewrite <- Ei, <- Eo.
     destruct (type_facts z _ F (zf_dflt z F)) as (ty & Hty & Eoff & HO & _ & _ & Hab).
-    fold (doff z) in Eoff, HO.
+    fold (doff z) in Eoff, HO. rewrite <- Eoff in *.
     rewrite Hty. cbn [bind].
     rewrite local_time_tt_ok by (try exact Ht; try exact Hab; lia). cbn [bind].
     exists 0, (tt_isdst ty), (c_str (skipn (Z.to_nat (tt_abbr ty)) (z_abbrs z))).
-    rewrite Eoff. split; [reflexivity|].
+    split; [reflexivity|].
     unfold info_of. rewrite Hty. cbn [bind]. rewrite cstr_from_ok by exact Hab. reflexivity.
   - (* at or after some transition *)
     assert (exists k, upper_idx (absl z) t = S k) as [k Hk].
@@ -407,7 +409,8 @@ Proof.
     destruct (nth_lt_some (z_trans z) k ltac:(lia)) as [tr Hn].
     destruct (local_time_tr_ok z t k tr F Ht Hk Hn) as (dst & ab & HL & HI).
     rewrite Hk in ZB. rewrite absl_nth, Hn in ZB. cbn [option_map absf zt_off zt_id] in ZB.
-    inversion ZB as [[Eo Ei]]. rewrite <- Ei.
+    cbv beta iota in ZB. apply pair_equal_spec in ZB.
+    destruct ZB as [Eo Ei]. rewrite <- Ei, <- Eo.
     destruct (Z.leb_spec (tr_time l) t) as [Hlast|Hin].
     + (* the last transition *)
       assert (k = (length (z_trans z) - 1)%nat) as Ek.
@@ -453,3 +456,412 @@ Proof.
   destruct (res_fst_OK _ _ Hh) as [h' Hr].
   exists h', dst, ab. split; [exact Hr|exact HI].
 Qed.
+
+(* ================================================================== *)
+(* The built-in fixed-offset zones                                     *)
+
+Definition mkbt (off t : Z) : transition := mkTr t 0 (cos (t + off)) (cos (t + off - 1)).
+Definition mkz (off t : Z) : ztr := mkZT t off 0.
+
+Definition fixed_zone (off : Z) : zone :=
+  mkZone (map (mkbt off) builtin_times)
+         [mkTT off (cos (max64 + off)) (cos (min64 + off)) false 0] 0
+         (fixed_abbr_spec off ++ [0]) [] false 0.
+
+Lemma builtin_range : forall t, In t builtin_times -> - 2 ^ 59 <= t <= 2 ^ 60.
+Proof.
+  assert (forallb (fun t => (- 2 ^ 59 <=? t) && (t <=? 2 ^ 60)) builtin_times = true) as H
+    by (vm_compute; reflexivity).
+  rewrite forallb_forall in H. intros t Hin. specialize (H t Hin).
+  rewrite andb_true_iff, !Z.leb_le in H. exact H.
+Qed.
+
+Lemma builtin_trans_ok off : -86400 <= off <= 86400 -> forall ts,
+  (forall t, In t ts -> - 2 ^ 59 <= t <= 2 ^ 60) ->
+  builtin_trans [] (mkTT off epoch epoch false 0) ts = OK (map (mkbt off) ts).
+Proof.
+  intros Ho. induction ts as [|t r IH]; intros H; [reflexivity|].
+  pose proof (H t (or_introl eq_refl)) as Ht.
+  assert (2 ^ 59 = 576460752303423488) as E59 by reflexivity.
+  assert (2 ^ 60 = 1152921504606846976) as E60 by reflexivity.
+  cbn [builtin_trans map].
+  rewrite local_time_tt_ok.
+  - cbn [bind al_cs tt_off]. rewrite minus_cos.
+    + cbn [bind]. rewrite IH by (intros x Hx; apply H; right; exact Hx).
+      cbn [bind]. reflexivity.
+    + unfold SB. lia.
+    + unfold int64, min64, max64. lia.
+    + unfold SB. lia.
+  - unfold int64, min64, max64. lia.
+  - cbn [tt_off]. lia.
+  - cbn [tt_abbr length]. lia.
+Qed.
+
+Definition nul_free (s : list Z) : bool := forallb (fun c => negb (c =? 0)) s.
+
+Lemma c_str_app0 s : nul_free s = true -> c_str (s ++ [0]) = s.
+Proof.
+  induction s as [|c r IH]; intros H.
+  - reflexivity.
+  - cbn [nul_free forallb] in H. apply andb_true_iff in H. destruct H as [H1 H2].
+    cbn [app c_str]. destruct (c =? 0); [discriminate|]. rewrite IH; auto.
+Qed.
+
+Lemma fixed_abbr_nul_free_sweep :
+  forallb (fun off => nul_free (fixed_abbr_spec off)) (zrange (-86400) (Z.to_nat 172801)) = true.
+Proof. vm_compute. reflexivity. Qed.
+
+Lemma fixed_abbr_nul_free off : -86400 <= off <= 86400 -> nul_free (fixed_abbr_spec off) = true.
+Proof.
+  intros H. pose proof fixed_abbr_nul_free_sweep as S. rewrite forallb_forall in S.
+  apply S. apply zrange_In. lia.
+Qed.
+
+Lemma reset_ok off : -86400 <= off <= 86400 -> reset_to_builtin_utc off = OK (fixed_zone off).
+Proof.
+  intros Ho. unfold reset_to_builtin_utc, narrow32.
+  rewrite chk32_in by (unfold int32, min32, max32; lia). cbn [bind].
+  rewrite (builtin_trans_ok off Ho _ builtin_range). cbn [bind].
+  destruct (fixed_exhaustive_lemma off ltac:(lia)) as (_ & -> & _). cbn [bind].
+  rewrite !local_time_tt_ok.
+  - cbn [bind al_cs tt_off]. reflexivity.
+  - unfold int64, min64, max64. lia.
+  - cbn [tt_off]. lia.
+  - cbn [tt_abbr]. lia.
+  - unfold int64, min64, max64. lia.
+  - cbn [tt_off]. lia.
+  - cbn [tt_abbr]. lia.
+Qed.
+
+Lemma off_of_fixed off : off_of (fixed_zone off) 0 = off.
+Proof. reflexivity. Qed.
+
+Lemma fields_eqb_refl f : fields_eqb f f = true.
+Proof. apply fields_eqb_eq. reflexivity. Qed.
+
+Lemma civils_fixed z off : off_of z 0 = off -> forall ts,
+  civils_ok z off (map (mkbt off) ts) = true.
+Proof.
+  intros Hz. induction ts as [|t r IH]; [reflexivity|].
+  cbn [map civils_ok mkbt tr_cs tr_pcs tr_time tr_type]. rewrite Hz.
+  replace (t - 1 + off) with (t + off - 1) by lia.
+  rewrite !fields_eqb_refl. cbn [andb]. exact IH.
+Qed.
+
+Lemma absl_fixed off : absl (fixed_zone off) = map (mkz off) builtin_times.
+Proof.
+  unfold absl. cbn [fixed_zone z_trans]. rewrite map_map. apply map_ext.
+  intros t. reflexivity.
+Qed.
+
+Lemma fixed_ti off : forall ts, strictly_increasing ts = true ->
+  times_increasing (map (mkz off) ts) = true.
+Proof.
+  induction ts as [|a r IH]; [reflexivity|]. destruct r as [|b r']; [reflexivity|].
+  intros H. change (strictly_increasing (a :: b :: r')) with ((a <? b) && strictly_increasing (b :: r')) in H.
+  apply andb_true_iff in H. destruct H as [H1 H2].
+  cbn [map]. rewrite ti_cons2. cbn [mkz zt_time]. rewrite H1. cbn [andb]. apply IH. exact H2.
+Qed.
+
+Lemma fixed_gw off : forall ts, strictly_increasing ts = true ->
+  gaps_wide off (map (mkz off) ts) = true.
+Proof.
+  induction ts as [|a r IH]; [reflexivity|]. destruct r as [|b r']; [reflexivity|].
+  intros H. change (strictly_increasing (a :: b :: r')) with ((a <? b) && strictly_increasing (b :: r')) in H.
+  apply andb_true_iff in H. destruct H as [H1 H2].
+  cbn [map]. rewrite gw_cons2. cbn [mkz zt_time zt_off]. apply andb_true_iff. split.
+  - apply Z.ltb_lt. apply Z.ltb_lt in H1. lia.
+  - apply IH. exact H2.
+Qed.
+
+Lemma builtin_increasing : strictly_increasing builtin_times = true.
+Proof. vm_compute. reflexivity. Qed.
+
+Lemma zoff_fixed off t : forall ts, zoff_list (map (mkz off) ts) off t = off.
+Proof.
+  induction ts as [|a r IH]; [reflexivity|].
+  cbn [map zoff_list mkz zt_time zt_off]. destruct (a <=? t); auto.
+Qed.
+
+Lemma zid_fixed off t : forall ts, zid_list (map (mkz off) ts) 0 t = 0.
+Proof.
+  induction ts as [|a r IH]; [reflexivity|].
+  cbn [map zid_list mkz zt_time zt_id]. destruct (a <=? t); auto.
+Qed.
+
+Lemma last_opt_map {A B} (f : A -> B) l : last_opt (map f l) = option_map f (last_opt l).
+Proof.
+  unfold last_opt. rewrite <- map_rev. destruct (rev l); reflexivity.
+Qed.
+
+Lemma fixed_zone_ok_true off : -86400 <= off <= 86400 -> zone_ok (fixed_zone off) = true.
+Proof.
+  intros Ho. unfold zone_ok. rewrite !andb_true_iff.
+  split; [split; [split; [split; [split; [split; [split|]|]|]|]|]|].
+  - reflexivity.
+  - cbn [fixed_zone z_types forallb]. rewrite andb_true_r.
+    unfold type_ok. cbn [tt_off tt_cmax tt_cmin tt_abbr].
+    rewrite !fields_eqb_refl, !andb_true_iff, !Z.leb_le. repeat split; lia.
+  - reflexivity.
+  - rewrite forallb_forall. intros tr Hin. cbn [fixed_zone z_trans] in Hin.
+    apply in_map_iff in Hin. destruct Hin as (t & <- & Hin).
+    cbn [mkbt tr_type tr_time]. pose proof (builtin_range t Hin) as R.
+    rewrite !andb_true_iff, !Z.leb_le. repeat split; try lia.
+  - exact (civils_fixed (fixed_zone off) off (off_of_fixed off) builtin_times).
+  - rewrite abs_zone_eq. unfold wfz. cbn [zz_tr zz_doff]. rewrite absl_fixed.
+    change (doff (fixed_zone off)) with off.
+    rewrite (fixed_ti off _ builtin_increasing), (fixed_gw off _ builtin_increasing).
+    reflexivity.
+  - cbn [fixed_zone z_trans]. rewrite last_opt_map. reflexivity.
+  - reflexivity.
+Qed.
+
+Lemma fixed_zone_ok_lemma : forall off, -86400 <= off <= 86400 ->
+  exists z, reset_to_builtin_utc off = OK z /\ zone_ok z = true /\ z_extended z = false /\
+    (forall t, zoff (abs_zone z) t = off) /\
+    (forall t, info_of z (zid (abs_zone z) t) = OK (false, fixed_abbr_spec off)).
+Proof.
+  intros off Ho. exists (fixed_zone off).
+  split; [apply reset_ok; exact Ho|].
+  split; [apply fixed_zone_ok_true; exact Ho|].
+  split; [reflexivity|].
+  split.
+  - intros t. rewrite abs_zone_eq. unfold zoff. cbn [zz_tr zz_doff]. rewrite absl_fixed.
+    change (doff (fixed_zone off)) with off. apply zoff_fixed.
+  - intros t. rewrite abs_zone_eq. unfold zid. cbn [zz_tr zz_did]. rewrite absl_fixed.
+    change (z_default (fixed_zone off)) with 0. rewrite zid_fixed.
+    unfold info_of. cbn [fixed_zone z_types z_abbrs].
+    change (nth_res [mkTT off (cos (max64 + off)) (cos (min64 + off)) false 0] 0)
+      with (OK (mkTT off (cos (max64 + off)) (cos (min64 + off)) false 0)).
+    cbn [bind tt_abbr tt_isdst].
+    rewrite cstr_from_ok by (rewrite app_length; cbn [length]; lia).
+    change (Z.to_nat 0) with O. cbn [skipn bind].
+    rewrite c_str_app0 by (apply fixed_abbr_nul_free; exact Ho). reflexivity.
+Qed.
+
+(* ================================================================== *)
+(* MakeTime                                                            *)
+
+Definition clamp' (v : Z) : Z := Z.max min64 (Z.min max64 v).
+Definition kind_of' (k : zkind) : ckind := match k with ZU => UNIQUE | ZS => SKIPPED | ZR => REPEATED end.
+
+Definition cl_of (c : zcl) : clookup :=
+  mkCL (kind_of' (zk c)) (clamp' (zpre c)) (clamp' (ztrans c)) (clamp' (zpost c)).
+
+Lemma clamp_id v : int64 v -> clamp' v = v.
+Proof. unfold clamp', int64. lia. Qed.
+
+Ltac zi := unfold int64, min64, max64, SB in *; lia.
+Ltac stp :=
+  first [ rewrite diff_l by (auto; zi)
+        | rewrite diff_r by (auto; zi)
+        | unfold add64; rewrite chk64_in by zi
+        | unfold sub64; rewrite chk64_in by zi ];
+  cbn [bind].
+
+Lemma make_skipped_ok z cs tr po : valid_fields cs = true -> int64 (fy cs) ->
+  - 2 ^ 59 <= tr_time tr <= 2 ^ 60 -> -86400 <= off_of z (tr_type tr) <= 86400 ->
+  -86400 <= po <= 86400 ->
+  tr_cs tr = cos (tr_time tr + off_of z (tr_type tr)) ->
+  tr_pcs tr = cos (tr_time tr - 1 + po) ->
+  tr_time tr - 1 + po < sec_of cs < tr_time tr + off_of z (tr_type tr) ->
+  make_skipped tr cs = OK (cl_of (zskipped po (absf z tr) (sec_of cs))).
+Proof.
+  intros V I HT HO HP Ccs Cpcs HL.
+  assert (2 ^ 59 = 576460752303423488) as E59 by reflexivity.
+  assert (2 ^ 60 = 1152921504606846976) as E60 by reflexivity.
+  rewrite E59, E60 in HT. clear E59 E60.
+  unfold make_skipped. rewrite Ccs, Cpcs.
+  stp. stp. stp. stp. stp.
+  unfold cl_of, zskipped, at_, pre_. cbn [zk zpre ztrans zpost kind_of' absf zt_time zt_off].
+  rewrite !clamp_id by zi. reflexivity.
+Qed.
+
+Lemma make_repeated_ok z cs tr po : valid_fields cs = true -> int64 (fy cs) ->
+  - 2 ^ 59 <= tr_time tr <= 2 ^ 60 -> -86400 <= off_of z (tr_type tr) <= 86400 ->
+  -86400 <= po <= 86400 ->
+  tr_cs tr = cos (tr_time tr + off_of z (tr_type tr)) ->
+  tr_pcs tr = cos (tr_time tr - 1 + po) ->
+  tr_time tr + off_of z (tr_type tr) <= sec_of cs <= tr_time tr - 1 + po ->
+  make_repeated tr cs = OK (cl_of (zrepeated po (absf z tr) (sec_of cs))).
+Proof.
+  intros V I HT HO HP Ccs Cpcs HL.
+  assert (2 ^ 59 = 576460752303423488) as E59 by reflexivity.
+  assert (2 ^ 60 = 1152921504606846976) as E60 by reflexivity.
+  rewrite E59, E60 in HT. clear E59 E60.
+  unfold make_repeated. rewrite Ccs, Cpcs.
+  stp. stp. stp. stp. stp.
+  unfold cl_of, zrepeated, at_, pre_. cbn [zk zpre ztrans zpost kind_of' absf zt_time zt_off].
+  rewrite !clamp_id by zi. reflexivity.
+Qed.
+
+Lemma lt_cs_tr z cs tr i : zfacts z -> valid_fields cs = true ->
+  nth_error (z_trans z) i = Some tr ->
+  lt64 cs (tr_cs tr) = (sec_of cs <? at_ (absf z tr)).
+Proof.
+  intros F V Hn. destruct (tr_facts z i tr F Hn) as (_ & _ & _ & Ccs & _ & _).
+  rewrite Ccs, lt_l by exact V. reflexivity.
+Qed.
+
+Lemma uc_facts z L : zfacts z ->
+  (forall i tr, nth_error (z_trans z) i = Some tr -> (i < upper_civil (absl z) L)%nat ->
+     tr_time tr + off_of z (tr_type tr) <= L) /\
+  (forall i tr, nth_error (z_trans z) i = Some tr -> (upper_civil (absl z) L <= i)%nat ->
+     L < tr_time tr + off_of z (tr_type tr)).
+Proof.
+  intros F. destruct (zf_wf z F) as (_ & SA & _).
+  split; intros i tr Hn Hi.
+  - destruct (tr_facts z i tr F Hn) as (_ & _ & _ & _ & _ & Na).
+    pose proof (upper_civil_char (absl z) L SA i _ Na) as C.
+    unfold at_ in C. cbn [absf zt_time zt_off] in C. apply C. exact Hi.
+  - destruct (tr_facts z i tr F Hn) as (_ & _ & _ & _ & _ & Na).
+    pose proof (upper_civil_char (absl z) L SA i _ Na) as C.
+    unfold at_ in C. cbn [absf zt_time zt_off] in C. lia.
+Qed.
+
+Lemma make_find_ok z cs : zfacts z -> valid_fields cs = true ->
+  exists h', make_find z 0 cs = OK (upper_civil (absl z) (sec_of cs), h').
+Proof.
+  intros F V.
+  destruct (zf_first z F) as (f & r & Hfr & Hf0).
+  destruct (zf_last z F) as (l & Hl & Hl0).
+  destruct (last_opt_nth _ _ Hl) as [Hln Hlen].
+  assert (Hn0 : nth_error (z_trans z) 0 = Some f) by (rewrite Hfr; reflexivity).
+  destruct (uc_facts z (sec_of cs) F) as [U1 U2].
+  pose proof (upper_civil_le (absl z) (sec_of cs)) as Hle. rewrite absl_length in Hle.
+  unfold make_find. rewrite (nth_tr_some z 0 f Hn0), Hl. cbn [bind].
+  rewrite (lt_cs_tr z cs f 0 F V Hn0).
+  unfold le64. rewrite (lt_cs_tr z cs l _ F V Hln).
+  unfold at_. cbn [absf zt_time zt_off].
+  destruct (Z.ltb_spec (sec_of cs) (tr_time f + off_of z (tr_type f))) as [H1|H1].
+  - assert (upper_civil (absl z) (sec_of cs) = O) as ->.
+    { destruct (upper_civil (absl z) (sec_of cs)) eqn:E; [reflexivity|].
+      pose proof (U1 0%nat f Hn0 ltac:(lia)). lia. }
+    exists 0. reflexivity.
+  - destruct (Z.ltb_spec (sec_of cs) (tr_time l + off_of z (tr_type l))) as [H2|H2]; cbn [negb].
+    + change (0 <? 0) with false. cbn [andb bind].
+      rewrite bound_search_ok by (apply civil_sorted_part; apply zf_civil_sorted; exact F).
+      cbn [bind].
+      rewrite (pp_ext _ (fun tr => sec_of cs <? at_ (absf z tr))).
+      * rewrite pp_upper_civil. fold (absl z). eexists. reflexivity.
+      * intros x Hx. apply In_nth_error in Hx. destruct Hx as [i Hi].
+        apply (lt_cs_tr z cs x i F V Hi).
+    + assert (upper_civil (absl z) (sec_of cs) = length (z_trans z)) as ->.
+      { destruct (Nat.eq_dec (upper_civil (absl z) (sec_of cs)) (length (z_trans z))) as [E|E]; [exact E|].
+        pose proof (U2 _ l Hln ltac:(lia)). lia. }
+      exists 0. reflexivity.
+Qed.
+
+Lemma make_noext_ok z cs : zfacts z -> valid_fields cs = true -> int64 (fy cs) ->
+  exists h', make_time_noext z 0 cs = OK (cl_of (zmake (abs_zone z) (sec_of cs)), h').
+Proof.
+  intros F V I.
+  destruct (make_find_ok z cs F V) as [h' Hf]. exists h'.
+  destruct (zf_first z F) as (f & r & Hfr & Hf0).
+  destruct (zf_last z F) as (l & Hl & Hl0).
+  destruct (last_opt_nth _ _ Hl) as [Hln Hlen].
+  assert (Hn0 : nth_error (z_trans z) 0 = Some f) by (rewrite Hfr; reflexivity).
+  destruct (uc_facts z (sec_of cs) F) as [U1 U2].
+  pose proof (upper_civil_le (absl z) (sec_of cs)) as Hle. rewrite absl_length in Hle.
+  pose proof (doff_bound z F) as HD.
+  assert (2 ^ 59 = 576460752303423488) as E59 by reflexivity.
+  assert (2 ^ 60 = 1152921504606846976) as E60 by reflexivity.
+  unfold make_time_noext. rewrite Hf. cbn [bind].
+  rewrite abs_zone_eq, zmake_zmakeL. unfold zmakeL. rewrite absl_length.
+  destruct (upper_civil (absl z) (sec_of cs)) as [|j] eqn:Ek.
+  - (* before the first transition, or in its gap *)
+    cbn [Nat.eqb]. rewrite (nth_tr_some z 0 f Hn0). cbn [bind].
+    assert (absl z = absf z f :: map (absf z) r) as -> by (unfold absl; rewrite Hfr; reflexivity).
+    destruct (tr_facts z 0 f F Hn0) as (Hi & HT & HO & Ccs & Cpcs & _). cbn [ob] in Cpcs.
+    pose proof (U2 0%nat f Hn0 ltac:(lia)) as Hlt.
+    unfold le64. rewrite Cpcs, lt_r by exact V.
+    rewrite Z.leb_antisym. unfold pre_ at 1. cbn [absf zt_time].
+    destruct (Z.ltb_spec (tr_time f - 1 + doff z) (sec_of cs)) as [Hs|Hs]; cbn [negb].
+    + rewrite (make_skipped_ok z cs f (doff z)) by (auto; lia). reflexivity.
+    + destruct (type_facts z _ F (zf_dflt z F)) as (ty & Hty & Eoff & _ & _ & Ecmin & _).
+      fold (doff z) in Eoff, Ecmin.
+      rewrite Hty. cbn [bind]. rewrite Ecmin, lt_l by exact V. rewrite Eoff.
+      unfold cl_of, zunique. cbn [zk zpre ztrans zpost kind_of'].
+      destruct (Z.ltb_spec (sec_of cs) (min64 + doff z)) as [Hm|Hm].
+      * replace (clamp' (sec_of cs - doff z)) with min64 by (unfold clamp', min64, max64 in *; lia).
+        reflexivity.
+      * rewrite epoch_cos. rewrite (plus_cos 0 (doff z)) by zi. cbn [bind].
+        change (0 + doff z) with (doff z).
+        rewrite E59, E60 in HT.
+        stp. rewrite !clamp_id by zi. reflexivity.
+  - change (Nat.eqb (S j) 0) with false. cbv iota.
+    destruct (nth_lt_some (z_trans z) j ltac:(lia)) as [trp Hnp].
+    destruct (tr_facts z j trp F Hnp) as (Hip & HTp & HOp & Ccsp & Cpcsp & Nap).
+    pose proof (ob_bound z j F) as HBp.
+    pose proof (U1 j trp Hnp ltac:(lia)) as Hge.
+    rewrite Nap.
+    destruct (Nat.eqb_spec (S j) (length (z_trans z))) as [En|En].
+    + (* at or after the last transition *)
+      replace (length (z_trans z) - 1)%nat with j by lia.
+      rewrite (nth_tr_some z j trp Hnp). cbn [bind].
+      rewrite Cpcsp, lt_r by exact V.
+      unfold pre_ at 1. cbn [absf zt_time].
+      destruct (Z.ltb_spec (tr_time trp - 1 + ob (doff z) (absl z) j) (sec_of cs)) as [Hs|Hs].
+      * destruct (type_facts z _ F Hip) as (ty & Hty & Eoff & _ & Ecmax & _ & _).
+        rewrite Hty. cbn [bind]. rewrite Ecmax, lt_r by exact V.
+        unfold cl_of, zunique, at_. cbn [zk zpre ztrans zpost kind_of' absf zt_time zt_off].
+        assert (trp = l) by (replace (length (z_trans z) - 1)%nat with j in Hln by lia; congruence).
+        subst l.
+        destruct (Z.ltb_spec (max64 + off_of z (tr_type trp)) (sec_of cs)) as [Hm|Hm].
+        -- replace (clamp' (tr_time trp + (sec_of cs - (tr_time trp + off_of z (tr_type trp)))))
+             with max64 by (unfold clamp', min64, max64 in *; lia).
+           reflexivity.
+        -- rewrite Ccsp. rewrite E59, E60 in HTp.
+           stp. stp. rewrite !clamp_id by zi. reflexivity.
+      * rewrite (make_repeated_ok z cs trp (ob (doff z) (absl z) j)) by (auto; lia). reflexivity.
+    + (* strictly inside the table *)
+      destruct (nth_lt_some (z_trans z) (S j) ltac:(lia)) as [tr Hn].
+      destruct (tr_facts z (S j) tr F Hn) as (Hi & HT & HO & Ccs & Cpcs & Na).
+      rewrite (ob_S _ _ j _ Nap) in Cpcs. cbn [absf zt_off] in Cpcs.
+      pose proof (U2 (S j) tr Hn ltac:(lia)) as Hlt.
+      rewrite Na. rewrite (nth_tr_some z (S j) tr Hn). cbn [bind].
+      rewrite Cpcs, lt_r by exact V.
+      unfold pre_ at 1. cbn [absf zt_time zt_off].
+      destruct (Z.ltb_spec (tr_time tr - 1 + off_of z (tr_type trp)) (sec_of cs)) as [Hs|Hs].
+      * rewrite (make_skipped_ok z cs tr (off_of z (tr_type trp))) by (auto; lia). reflexivity.
+      * replace (S j - 1)%nat with j by lia.
+        rewrite (nth_tr_some z j trp Hnp). cbn [bind].
+        unfold le64. rewrite Cpcsp, lt_r by exact V.
+        rewrite Z.leb_antisym. unfold pre_ at 1. cbn [absf zt_time].
+        destruct (Z.ltb_spec (tr_time trp - 1 + ob (doff z) (absl z) j) (sec_of cs)) as [Hr|Hr]; cbn [negb].
+        -- rewrite Ccsp. rewrite E59, E60 in HTp, HT.
+           unfold cl_of, zunique, at_. cbn [zk zpre ztrans zpost kind_of' absf zt_time zt_off].
+           stp. stp. rewrite !clamp_id by zi. reflexivity.
+        -- rewrite (make_repeated_ok z cs trp (ob (doff z) (absl z) j)) by (auto; lia). reflexivity.
+Qed.
+
+Lemma make_refines_lemma : forall z h cs, zone_ok z = true -> valid_fields cs = true -> int64 (fy cs) ->
+  (z_extended z = false \/ fy cs <= z_last_year z) ->
+  exists h', let c := zmake (abs_zone z) (sec_of cs) in
+    make_time z h cs = OK (mkCL (kind_of' (zk c)) (clamp' (zpre c)) (clamp' (ztrans c)) (clamp' (zpost c)), h').
+Proof.
+  intros z h cs Hok V I Hext. pose proof (zone_ok_facts z Hok) as F.
+  destruct (make_noext_ok z cs F V I) as (h0 & HM).
+  assert (make_time z 0 cs = make_time_noext z 0 cs) as E0.
+  { destruct (zf_first z F) as (f & r & Hfr & _).
+    destruct (zf_last z F) as (l & Hl & _).
+    assert (Hn0 : nth_error (z_trans z) 0 = Some f) by (rewrite Hfr; reflexivity).
+    unfold make_time. rewrite Hl, (nth_tr_some z 0 f Hn0). cbn [bind].
+    assert (negb (lt64 cs (tr_cs f)) && le64 (tr_cs l) cs && lt64 (tr_pcs l) cs
+            && z_extended z && (z_last_year z <? fy cs) = false) as ->; [|reflexivity].
+    destruct Hext as [He|He].
+    - rewrite He, andb_false_r. reflexivity.
+    - destruct (Z.ltb_spec (z_last_year z) (fy cs)); [lia|]. apply andb_false_r. }
+  pose proof (make_time_hint z h cs (zf_civil_sorted z F)) as Hh.
+  rewrite E0, HM in Hh. cbn [res_fst] in Hh.
+  destruct (res_fst_OK _ _ Hh) as [h' Hr].
+  exists h'. cbv zeta. exact Hr.
+Qed.
+
+(* Status: break_refines_lemma, make_refines_lemma and fixed_zone_ok_lemma are all
+   proved (nothing left open); `Print Assumptions` reports "Closed under the
+   global context" for the three theorems of Properties_C15z.v.
+   Remarks on the certificate: the last conjunct of zone_ok (first transition
+   before 0) is not needed by any of the three proofs; gaps_wide is used only
+   to derive that the civil seconds at_ are increasing; z_future and
+   z_last_year play no role below the extended_ guard. *)
